@@ -93,6 +93,12 @@ pub mod rowan {
 
     impl SyntaxText {
         pub uninterp spec fn view(&self) -> Seq<char>;
+
+        /// ToString through Display
+        #[verifier::external_body]
+        pub fn to_string(&self) -> (r: String)
+            ensures r@ == self@
+        { unimplemented!() }
     }
 
     impl SyntaxNode {
